@@ -686,3 +686,44 @@ Proof.
   split; [vm_compute; reflexivity|]. split; [exact crossing_on_segment|].
   split; [vm_compute; reflexivity|]. eexists. vm_compute. reflexivity.
 Qed.
+
+(* round 5 (large images): the harness evaluates `sample_cell` on a sample of cells instead of
+   the whole field; on the domain it is defined exactly inside the output's shape and IS the cell
+   of generate_pafs (unflattened and flattened: channel 2e+c).  The model is exact at every
+   magnitude; the float32 rounding of the code is bounded in the harness, not here. *)
+Theorem c05_sampled_cell_is_cell_of_field :
+  forall fl fb samples H W sig s edges e c i j cl,
+  in_domain fb samples H W s edges = true ->
+  sample_cell fl fb samples H W sig s edges (e, c, i, j) = Some cl ->
+  cell4 (generate_pafs fl fb samples H W sig s edges) e c i j = Some cl /\
+  cell3 (generate_pafs_flat fl fb samples H W sig s edges) (2 * e + c) i j = Some cl.
+Proof. exact sample_cell_spec. Qed.
+Print Assumptions c05_sampled_cell_is_cell_of_field.
+
+Theorem c05_sampled_cell_defined_inside_shape :
+  forall fl fb samples H W sig s edges e a b c i j,
+  nth_error edges e = Some (a, b) -> (c < 2)%nat -> (i * s < H)%nat -> (j * s < W)%nat ->
+  exists cl, sample_cell fl fb samples H W sig s edges (e, c, i, j) = Some cl.
+Proof. exact sample_cell_defined. Qed.
+Print Assumptions c05_sampled_cell_defined_inside_shape.
+
+(* non-vacuity: a 1000-px edge with non-dyadic endpoints in a 1024 x 1280 image, stride 4: the cell
+   at image point (600, 500) holds exactly one term *)
+Example ex_c05_sampled_cell_large :
+  exists t, sample_cell true true [[[Some (877#10, 19139#100)%Q; Some (11123#10, 90861#100)%Q]]]
+              1024 1280 (3#2) 4 [(0, 1)%nat] (0, 0, 125, 150)%nat = Some [t].
+Proof. eexists. vm_compute. reflexivity. Qed.
+
+(* round 5: the bracket used by the harness in the large-image regime.  HYPOTHESIS, not proved in Coq:
+   the code's computed distance D' is within eps of the true distance D, eps = 16 * 2^-24 *
+   max(|p - src|, |dst - src|) for the difference form of distance_to_edge (float32 rounding analysis in
+   harness/props/c05.py; valid for any magnitude without overflow, tested up to 1100 x 1300 px).
+   CONCLUSION: the weight formed from D'^2 lies between the true weights at D + eps and max(0, D - eps);
+   in particular on the segment (D = 0) it is >= paf_weight sig (eps^2). *)
+Theorem c05_weight_bracket_under_distance_error :
+  forall sig D D' eps,
+  sig <> 0 -> 0 <= D -> 0 <= D' -> Rabs (D' - D) <= eps ->
+  paf_weight sig ((D + eps) * (D + eps)) <= paf_weight sig (D' * D') <=
+  paf_weight sig (Rmax 0 (D - eps) * Rmax 0 (D - eps)).
+Proof. exact weight_bracket. Qed.
+Print Assumptions c05_weight_bracket_under_distance_error.
